@@ -4,6 +4,7 @@ import (
 	"fmt"
 	"strconv"
 	"strings"
+	"unicode"
 )
 
 type TokenType byte
@@ -160,6 +161,12 @@ func (l *Lexer) Split() []*Token {
 			tokStart = i + 1
 		case '"', '\'':
 			if !strStart {
+				// a word directly in front of the quote ends here
+				curr = l.Query[tokStart : tokStart+min(tokLen, l.Length-tokStart)]
+				if token := buildToken(curr, tokStartPos); token != nil {
+					ret = append(ret, token)
+				}
+				tokLen = 0
 				strStart = true
 				strStartChar = char
 				tokStartPos = i
@@ -174,11 +181,19 @@ func (l *Lexer) Split() []*Token {
 				}
 				ret = append(ret, token)
 				tokLen = 0
+				tokStartPos = i + 1
+				tokStart = i + 1
 			} else {
 				tokLen++
 			}
 		case '`':
 			if !strStart {
+				// a word directly in front of the quote ends here
+				curr = l.Query[tokStart : tokStart+min(tokLen, l.Length-tokStart)]
+				if token := buildToken(curr, tokStartPos); token != nil {
+					ret = append(ret, token)
+				}
+				tokLen = 0
 				strStart = true
 				strStartChar = char
 				tokStartPos = i
@@ -193,6 +208,8 @@ func (l *Lexer) Split() []*Token {
 				}
 				ret = append(ret, token)
 				tokLen = 0
+				tokStartPos = i + 1
+				tokStart = i + 1
 			} else {
 				tokLen++
 			}
@@ -356,8 +373,9 @@ func (l *Lexer) Split() []*Token {
 		prev = char
 	}
 	if tokLen > 0 {
+		// (inside an unterminated quote the pending text starts after the quote character)
 		curr = l.Query[tokStart : tokStart+min(tokLen, l.Length-tokStart)]
-		if token := buildToken(curr, tokStartPos); token != nil {
+		if token := buildToken(curr, tokStart); token != nil {
 			ret = append(ret, token)
 		}
 	}
@@ -379,6 +397,8 @@ func isFloat(val string) bool {
 }
 
 func buildToken(curr string, pos int) *Token {
+	// the token begins after any white space (tabs, newlines) in front of the word
+	pos += len(curr) - len(strings.TrimLeftFunc(curr, unicode.IsSpace))
 	curr = strings.ToLower(strings.TrimSpace(curr))
 	if len(curr) == 0 {
 		return nil
